@@ -561,11 +561,17 @@ def token_neighbourhood(fst, text, node, parent, mode, cidp, rep, res, tier):
 USEQ_ELTS = ['a', '"é"', 'b[0]', '*s']
 USEQ_PELTS = ['a', '"é"', 'b.c', '*_']
 USEQ_SEPS = [', ', ',\n', ',\n  ', ',  # é\n', ' ,\n\n']
-USEQ_EXPR_MODES = ['expr', 'Tuple', 'expr_slice', 'expr_all']
+USEQ_EXPR_MODES = ['expr', 'Tuple', 'expr_slice', 'expr_all', 'all']
+
+
+USEQ_TAILS = [',', '\n,', '\n ,', '\n  ,', '\n   ,', '\n    ,', '  # é\n ,', '\n\n ,', ' ,\n']   # trailing comma of a one-element tuple, on its own line at every column up to the element's end
 
 
 def useq_texts(elts, tier):
     import itertools
+    for e in elts + ['*abc', 'é']:  # one element and its comma
+        for tail in USEQ_TAILS:
+            yield e + tail
     for n in (2, 3):
         for es in itertools.product(elts, repeat=n):
             if sum(e.startswith('*') for e in es) > 1:
@@ -604,8 +610,14 @@ def run_useq(fst, kind, part, tier, res):
             want = rebase(ref, 1, len(' case ['), 2)
             k0, k1 = want.patterns[0], want.patterns[-1]
             want.lineno, want.col_offset, want.end_lineno, want.end_col_offset = k0.lineno, k0.col_offset, k1.end_lineno, k1.end_col_offset
+            toks = O.sig_tokens(text)
+            if toks and toks[-1].string == ',':  # a trailing comma belongs to the undelimited sequence (as CPython reports for 'case a,:')
+                lines_ = text.split('\n')
+                want.end_lineno, want.end_col_offset = toks[-1].end[0], O.char2byte(lines_[toks[-1].end[0] - 1], toks[-1].end[1])
             modes = ['pattern', 'MatchSequence']
         for mode in modes:
+            if mode == 'all' and O.try_parse(text) is not None:
+                continue  # the text is also a sequence of statements, which is what mode 'all' tries first
             cid = f'C05/useq/{kind}/{text!r}/mode={mode}'
             res.evals += 1
             res.transitions += 1
